@@ -1165,6 +1165,9 @@ impl TypeSpace {
         // TODO we should do something with `multiple`
         if let Some(ty) = maybe_type {
             Ok((TypeEntry::new_integer(ty), metadata))
+        } else if format.as_deref() == Some("uint64") {
+            // Values of this format may exceed i64::MAX.
+            Ok((TypeEntry::new_integer("u64"), metadata))
         } else {
             // TODO we could construct a type that itself enforces the various
             // bounds.
